@@ -35,7 +35,7 @@ def gen_docs(seed, tier):
     # values around the termination sequence (fixed values: FIXED_VALUES[name])
     for fam, it in (("enum-struct-layout-orders", ((c, v) for c, v, _ in G.enum_struct_layout_orders())),
                     ("enum-minmax-terminated", G.enum_minmax_terminated()), ("enum-masked-holes", G.enum_masked_holes()),
-                    ("enum-field-layouts", G.enum_field_layouts())):
+                    ("enum-field-layouts", G.enum_field_layouts()), ("enum-after-complex", G.enum_after_complex())):
         seen, comps = {}, []
         for c, v in it:
             if c.name not in seen:
@@ -87,7 +87,7 @@ def run_cases(seed, tier, on_case):
                     vals = []
             elif family == "enum-texttable":
                 vals = [{"x": t, "y": 0xA5} for _, _, t in c.params[1].dop.compu.scales]
-            elif family in ("enum-struct-layout-orders", "enum-minmax-terminated", "enum-masked-holes", "enum-field-layouts"):
+            elif family in ("enum-struct-layout-orders", "enum-minmax-terminated", "enum-masked-holes", "enum-field-layouts", "enum-after-complex"):
                 vals = FIXED_VALUES.get(c.name, [])
             elif family == "enum-mux-orders":
                 try:
